@@ -24,7 +24,7 @@ inductive Label
   | criteria | commit | setSolution | setDistance | other
   deriving DecidableEq, Repr
 
-inductive Effect | none | writeSol | writeDist | criteria
+inductive Effect | none | writeSol | writeDist | criteria | commitDist
   deriving DecidableEq, Repr
 
 structure Stmt where
@@ -33,6 +33,9 @@ structure Stmt where
   deriving DecidableEq, Repr
 
 inductive Method | newton | bregman
+  deriving DecidableEq, Repr
+
+inductive PostLoop | none | unguarded | guarded
   deriving DecidableEq, Repr
 
 /-- what the AST extraction records about one `_solve` method -/
@@ -52,6 +55,12 @@ structure LoopCode where
   /-- what the handler restores the iterate from is a COPY taken before the `try` (or the body never writes the iterate in
   place, so that an alias is as good as a copy) -/
   saveIsCopy : Bool
+  /-- the value the handler restores the distance from is re-bound to the current distance at the top of every pass (before the
+  `try`); otherwise it is only refreshed by a `commitDist` statement of the body (Bregman's `old_distance = new_distance`) -/
+  saveDistBeforeTry : Bool
+  /-- what follows the loop: nothing that can fail (`none`), a solve whose failure propagates (`unguarded`), or a solve inside
+  `try/except` whose failure only marks the pressure as not available (`guarded`; Bregman's pressure post-processing) -/
+  post : PostLoop
   deriving DecidableEq, Repr
 
 /-- in a body, the distance is evaluated AFTER the last write of the iterate (so it is the cost of the iterate the pass
@@ -61,10 +70,16 @@ def bodyOk (body : List Stmt) : Bool :=
   effs.contains .writeSol && effs.contains .writeDist &&
     !((effs.reverse.takeWhile (· != .writeDist)).contains .writeSol)
 
+/-- the saved distance is refreshed by the body itself: its LAST statement commits the new distance (and no earlier one does) -/
+def commitsLast (body : List Stmt) : Bool :=
+  let effs := body.map (·.effect)
+  effs.getLast? == some .commitDist && !(effs.dropLast.contains .commitDist)
+
 /-- the shape the positive theorems need -/
 def LoopCode.sound (c : LoopCode) : Bool :=
   c.restoreSol && c.restoreDist && c.flagOnBreak && c.distInit && c.iterInit && c.saveIsCopy &&
-    !c.bodies.isEmpty && c.bodies.all bodyOk
+    !c.bodies.isEmpty && c.bodies.all bodyOk &&
+    (if c.saveDistBeforeTry then c.bodies.all (fun b => !(b.map (·.effect)).contains .commitDist) else c.bodies.all commitsLast)
 
 /-- body number `branch` (out-of-range numbers mean the first body) -/
 def LoopCode.body (c : LoopCode) (branch : Nat) : List Stmt := c.bodies.getD branch (c.bodies.headD [])
@@ -90,20 +105,25 @@ structure LoopState where
   /-- explicit flag of the repaired code -/
   flag : Bool
   stopped : Bool
+  /-- iterate whose cost the variable the handler restores the distance from (`old_distance`) currently holds -/
+  savedDist : Option Nat
   deriving DecidableEq, Repr
 
 def init (c : LoopCode) : LoopState :=
   { iter := if c.iterInit then some 0 else none,
     distTag := if c.distInit then some 0 else none,
-    solTag := 0, flag := false, stopped := false }
+    solTag := 0, flag := false, stopped := false,
+    savedDist := if c.distInit then some 0 else none }
 
-/-- effects of the statements executed before statement `pos` of body `branch` -/
+/-- effects of the statements executed before statement `pos` of body `branch` (an exception is raised BY a statement, so at
+most all but the last statement have completed) -/
 def executed (c : LoopCode) (branch pos : Nat) : List Effect :=
-  ((c.body branch).take pos).map (·.effect)
+  ((c.body branch).take (min pos ((c.body branch).length - 1))).map (·.effect)
 
 /-- one pass of the loop body at loop index `i` -/
 def step (c : LoopCode) (s : LoopState) (i : Nat) (e : Event) : LoopState :=
-  let s := { s with iter := some i }
+  -- top of the pass: `old_distance = new_distance` if the code saves it there
+  let s := { s with iter := some i, savedDist := if c.saveDistBeforeTry then s.distTag else s.savedDist }
   match e with
   | .ok b met =>
     -- effects of the whole body, in source order: the iterate becomes iterate `i+1` once it is written; the distance is
@@ -111,15 +131,18 @@ def step (c : LoopCode) (s : LoopState) (i : Nat) (e : Event) : LoopState :=
     let effs := (c.body b).map (·.effect)
     let sol := if effs.contains .writeSol then i + 1 else s.solTag
     let fresh := effs.contains .writeDist && !((effs.reverse.takeWhile (· != .writeDist)).contains .writeSol)
-    let s := { s with solTag := sol, distTag := if fresh then some sol else s.distTag }
-    if 1 < i ∧ met then { s with flag := true, stopped := true } else s
+    let dist := if fresh then some sol else s.distTag
+    if 1 < i ∧ met then { s with solTag := sol, distTag := dist, flag := true, stopped := true }
+    -- the commit statements follow the criteria `break`: executed only when the loop goes on
+    else { s with solTag := sol, distTag := dist, savedDist := if effs.contains .commitDist then dist else s.savedDist }
   | .nan => { s with distTag := some (i + 1), solTag := i + 1, stopped := true }
   | .fail b a =>
     let pre := executed c b a
-    -- the iterate / the distance were already overwritten and the handler does not restore them
-    let s := if pre.contains .writeSol ∧ (c.restoreSol && c.saveIsCopy) = false then { s with solTag := i + 1 } else s
-    let s := if pre.contains .writeDist ∧ c.restoreDist = false then { s with distTag := some (i + 1) } else s
-    { s with stopped := true }
+    -- the iterate was already overwritten and the handler does not (effectively) restore it
+    let sol := if pre.contains .writeSol ∧ (c.restoreSol && c.saveIsCopy) = false then i + 1 else s.solTag
+    -- the distance: restored from the saved value, or left as the statements before the fault made it
+    let dist := if c.restoreDist then s.savedDist else (if pre.contains .writeDist then some (i + 1) else s.distTag)
+    { s with solTag := sol, distTag := dist, stopped := true }
 
 /-- the `for` loop: indices `i, i+1, …` while fuel (= remaining `range`) lasts and no `break` -/
 def runFrom (c : LoopCode) (env : Nat → Event) : Nat → Nat → LoopState → LoopState
@@ -155,7 +178,7 @@ def asFoundNewton : LoopCode :=
   { bodies := [[⟨.assemble, .none⟩, ⟨.linearSolve, .none⟩, ⟨.setSolution, .writeSol⟩, ⟨.anderson, .writeSol⟩,
                 ⟨.distance, .writeDist⟩, ⟨.history, .none⟩, ⟨.timings, .none⟩, ⟨.criteria, .criteria⟩]],
     restoreSol := false, restoreDist := false, flagOnBreak := false, distInit := false, iterInit := false,
-    saveIsCopy := false }
+    saveIsCopy := false, saveDistBeforeTry := false, post := .none }
 
 def asFoundBregman : LoopCode :=
   { bodies := [[⟨.regularisation, .none⟩, ⟨.linearSolve, .writeSol⟩, ⟨.shrink, .none⟩, ⟨.anderson, .none⟩,
@@ -165,11 +188,24 @@ def asFoundBregman : LoopCode :=
                 ⟨.distance, .writeDist⟩, ⟨.nanCheck, .none⟩, ⟨.history, .none⟩, ⟨.timings, .none⟩,
                 ⟨.criteria, .criteria⟩, ⟨.commit, .none⟩]],
     restoreSol := false, restoreDist := false, flagOnBreak := false, distInit := false, iterInit := true,
-    saveIsCopy := false }
+    saveIsCopy := false, saveDistBeforeTry := false, post := .unguarded }
 
 /-- the Newton body with the repaired handler / flag / initialisations (for non-vacuity examples) -/
 def repairedNewton : LoopCode :=
   { bodies := asFoundNewton.bodies, restoreSol := true, restoreDist := true, flagOnBreak := true, distInit := true,
-    iterInit := true, saveIsCopy := true }
+    iterInit := true, saveIsCopy := true, saveDistBeforeTry := true, post := .none }
+
+/-- what `_solve` returns after the loop, given whether the post-loop solve fails: the loop state unchanged, and the iterate
+whose pressure is reported (`none`: the NaN marker); an unguarded failure propagates -/
+structure Final where
+  state : LoopState
+  pressure : Option Nat
+  deriving DecidableEq, Repr
+
+def finish (c : LoopCode) (s : LoopState) (postFails : Bool) : Except Err Final :=
+  match c.post, postFails with
+  | .unguarded, true => .error .other
+  | .guarded, true => .ok { state := s, pressure := none }
+  | _, _ => .ok { state := s, pressure := some s.solTag }
 
 end Darsia.SolveLoop
